@@ -380,6 +380,24 @@ pub fn run_item(entries: &[Entry], thorough: bool, pos: usize, d: &mut Driver, s
             mutate_encoding(&t, std::slice::from_ref(v), thorough, &mut out, st, d);
         }
     }
+    // data of OLDER versions read by the newest definition (fields and variants that do not exist
+    // yet at that version: a damaged tag may name one of them)
+    let old_versions: Vec<u32> = if thorough { (0..ver).collect() } else if ver > 0 { vec![0] } else { vec![] };
+    for ov in old_versions {
+        let ok: Vec<&Val> = vals.iter().filter(|v| vmodel::values::representable_at(&e.ty, v, ov)).collect();
+        if ok.is_empty() {
+            continue;
+        }
+        let mut old_picks = vec![ok[ok.len() - 1].clone(), ok[ok.len() / 2].clone()];
+        old_picks.dedup();
+        st.add("C06.old_version_targets", 1);
+        for v in &old_picks {
+            for c in [Container::Bare, Container::NoSchema] {
+                let t = Target::new(e, ov, c, Ctx::Single, e.ty.clone());
+                mutate_encoding(&t, std::slice::from_ref(v), thorough, &mut out, st, d);
+            }
+        }
+    }
     // bulk containers (the packed path) of derived types and primitives
     if matches!(&e.ty, Ty::Def(_) | Ty::Prim(_)) || matches!(&e.ty, Ty::Lib(l) if l.key == "DropProbe") {
         for ctx in [Ctx::Vec, Ctx::Array3, Ctx::ArrayVec4, Ctx::BoxSlice] {
